@@ -1674,6 +1674,9 @@ theorem potInv_closed (B : Nat) (now : Nat) (arm : Arm) (classic : Bool) (hne : 
     rw [nak_keys]
     exact List.length_filter_le _ _
   select := fun ha => absurd ha hne
+  fresh := fun _ id a => ⟨linkInv_newUplink id a now, by
+    show (0 : Int) + ((([] : List QItem).length : Nat) : Int) ≤ B
+    simp⟩
 
 theorem potInv_mono {B B' : Nat} (hB : B ≤ B') (l : FLink F) (h : PotInv B l) : PotInv B' l :=
   ⟨h.1, by have := h.2; omega⟩
@@ -1780,6 +1783,10 @@ theorem runInv_step (B : Nat) (s : Sys F) (e : Ev) (h : RunInv B s) (hm : KeepsM
     exact ⟨hup (step_all s _ (fun arm ha => potInv_closed B _ arm _ (by cases ha; decide)) h.pot),
       h.classic, h.guard, h.reg⟩
   | syncTimeout =>
+    exact ⟨hup (step_all s _ (fun arm ha => potInv_closed B _ arm _ (by cases ha; decide)) h.pot),
+      h.classic, h.guard, h.reg⟩
+  | reload now addrs outs =>
+    -- retained links keep their record, new links start with an empty log and queue
     exact ⟨hup (step_all s _ (fun arm ha => potInv_closed B _ arm _ (by cases ha; decide)) h.pot),
       h.classic, h.guard, h.reg⟩
 
